@@ -843,6 +843,12 @@ func (it *Interp) assign(e *env, x *ast.AssignStmt) error {
 	return nil
 }
 
+// fieldRef is a pointer to a field of a struct object that does not hold a reference-like value (&g.nextID).
+type fieldRef struct {
+	obj map[string]any
+	f   *types.Var
+}
+
 func (it *Interp) store(e *env, l ast.Expr, v Value) error {
 	info := e.pkg.TypesInfo
 	switch x := l.(type) {
@@ -927,6 +933,10 @@ func (it *Interp) store(e *env, l ast.Expr, v Value) error {
 		}
 		if c, ok := base.(*cell); ok {
 			c.v = v
+			return nil
+		}
+		if r, ok := base.(*fieldRef); ok {
+			r.obj[r.f.Name()] = v
 			return nil
 		}
 		return it.errAt(e, l, "assignment through a pointer to %s", Show(base))
@@ -1254,6 +1264,9 @@ func (it *Interp) eval(e *env, x ast.Expr) (Value, error) {
 		if c, ok := v.(*cell); ok {
 			return c.v, nil
 		}
+		if r, ok := v.(*fieldRef); ok {
+			return it.field(r.obj, r.f), nil
+		}
 		if v == nil {
 			return nil, it.errAt(e, x, "nil pointer dereference")
 		}
@@ -1275,6 +1288,22 @@ func (it *Interp) eval(e *env, x ast.Expr) (Value, error) {
 			if id, ok := ast.Unparen(y.X).(*ast.Ident); ok {
 				if c := e.lookup(info.ObjectOf(id)); c != nil {
 					return c, nil
+				}
+			}
+			// &obj.field of a struct object: a reference to that field
+			if se, ok := ast.Unparen(y.X).(*ast.SelectorExpr); ok {
+				if sel := info.Selections[se]; sel != nil && sel.Kind() == types.FieldVal {
+					base, err := it.eval(e, se.X)
+					if err != nil {
+						return nil, err
+					}
+					base, err = it.walkEmbedded(e, se, base, sel)
+					if err != nil {
+						return nil, err
+					}
+					if o, ok := base.(map[string]any); ok {
+						return &fieldRef{obj: o, f: sel.Obj().(*types.Var)}, nil
+					}
 				}
 			}
 			return nil, it.errAt(e, x, "address of %s", Show(v))
